@@ -47,6 +47,9 @@ pub fn c04_inits() -> Vec<Init> {
     v.push(Init::BuiltStr(vec![pm(&[("A", "1\n2")])]));
     v.push(Init::Standalone(pm(&[("A", "1")])));
     v.push(Init::Standalone(pm(&[])));
+    for t in ["A: 1\nB: 2\n", "# c\nA: 1\n x\n# d\nB:  2\n\n\nC: 3", "A:\n 1\n 2\nB: 2\n# e\n"] {
+        v.push(Init::Reformatted(s(t)));
+    }
     v.push(Init::ParaFromStr(s("A: 1\nB: 2\n")));
     v.push(Init::ParaFromStr(s("A: 1\n\nB: 2")));
     v
@@ -81,6 +84,8 @@ pub fn c05_inits() -> Vec<Init> {
     .iter()
     .map(|t| Init::Text(s(t)))
     .chain([
+        Init::Reformatted(s("A: 1\n\n\n# m\nB: 2\n x\n\nC: 3")),
+        Init::Reformatted(s("# l\n\nA: 1\n# t")),
         Init::New,
         Init::BuiltStr(vec![]),
         Init::BuiltStr(vec![pm(&[("A", "1")]), pm(&[("B", "2")])]),
